@@ -6,6 +6,7 @@ package verifsim
 
 import (
 	"context"
+	"sync/atomic"
 	"fmt"
 	"sort"
 	"strings"
@@ -52,21 +53,38 @@ func (d c07DP) metric() *gostatsd.Metric {
 
 // yieldGate adapts the verifhook Yield seam to a Gate for one object and a set of armed sites.
 type yieldGate struct {
-	gate  *Gate
-	obj   any
+	gate   *Gate
+	anyObj bool
+	off    atomic.Bool // disarmed: every site passes
+	names  sync.Map    // obj (batch pointer) -> stable name for gate keys
+	obj    any
 	sites map[string]bool
 	mu    sync.Mutex
 	n     int
 }
 
 func (y *yieldGate) fn(site string, obj any) {
-	if obj != y.obj || !y.sites[site] {
+	if y.off.Load() || (!y.anyObj && obj != y.obj) || !y.sites[site] {
 		return
 	}
 	y.mu.Lock()
 	y.n++
 	y.mu.Unlock()
-	y.gate.Arrive(site, nil)
+	key := site
+	if ms, isSlice := obj.([]*gostatsd.Metric); isSlice { // ReceiveMetrics passes its slice: identify it by its first element
+		obj = nil
+		if len(ms) > 0 {
+			obj = ms[0]
+		}
+	}
+	if obj == nil {
+		y.gate.Arrive(key, nil)
+		return
+	}
+	if n, ok := y.names.Load(obj); ok {
+		key = site + "#" + n.(string)
+	}
+	y.gate.Arrive(key, nil)
 }
 
 // deepCopyMap copies a MetricMap so that the caller's original survives Merge's aliasing.
@@ -308,7 +326,7 @@ func (c07) Run(e *Env) {
 		slots := e.Range(1, 4)
 		sink := make(chan []*gostatsd.MetricMap, 1)
 		mc := gostatsd.NewMetricConsolidator(slots, false, time.Hour, sink)
-		yg := &yieldGate{gate: NewGate("yield"), obj: mc, sites: map[string]bool{}}
+		yg := &yieldGate{gate: NewGate("yield"), anyObj: true, sites: map[string]bool{}}
 		for _, s := range []string{"consolidator.receive.holding-slot", "consolidator.receive.before-return"} {
 			if e.Chance(2, 3) {
 				yg.sites[s] = true
@@ -329,7 +347,7 @@ func (c07) Run(e *Env) {
 			parked := yg.gate.Parked()
 			holding := 0
 			for _, p := range parked {
-				if p.Key == "consolidator.receive.holding-slot" || p.Key == "consolidator.receive.before-return" {
+				if strings.HasPrefix(p.Key, "consolidator.receive.") {
 					holding++
 				}
 			}
@@ -358,15 +376,19 @@ func (c07) Run(e *Env) {
 					for _, d := range b {
 						ms = append(ms, d.metric())
 					}
+					if len(ms) > 0 {
+						yg.names.Store(ms[0], fmt.Sprintf("%02d", next-1))
+					}
 					go func() { defer done(); mc.ReceiveMetrics(ms) }()
 				} else {
 					mm := build(b)
+					yg.names.Store(mm, fmt.Sprintf("%02d", next-1))
 					go func() { defer done(); mc.ReceiveMetricMap(mm) }()
 				}
 				e.Event("start dispatch %d", next-1)
 			} else {
 				p := parked[e.Choose("release-yield", len(parked))]
-				if p.Key == "consolidator.receive.holding-slot" {
+				if strings.HasPrefix(p.Key, "consolidator.receive.holding-slot") {
 					e.Probe("dispatcher-parked-holding-slot")
 					e.Fault("dispatcher-preempted-holding-slot")
 				}
